@@ -631,7 +631,16 @@ func (p *Parser) parseIfExpression() ast.Node {
 
 		if p.peekTokenIs(token.IF) {
 			p.nextToken()
-			expression.Alternative = &ast.Statements{Statements: []ast.Node{p.parseIfExpression()}}
+			// Each else if nests one level deeper in the tree (and in everything that recurses on it), like parentheses do.
+			p.depth++
+			if p.depth > MaxDepth {
+				p.abortTooDeep()
+				p.depth--
+				return nil
+			}
+			alt := p.parseIfExpression()
+			p.depth--
+			expression.Alternative = &ast.Statements{Statements: []ast.Node{alt}}
 			return expression
 		}
 
